@@ -48,6 +48,8 @@ type spec struct {
 	extra func(p *prep) []signerSet
 	// alt: documented alternative sufficient signer sets; each one is run on its own freshly prepared world
 	alt func(p *prep) []signerSet
+	// never: argument lists nobody is entitled to (a Null party): inert under every signer set, the sufficient one included
+	never func(p *prep) [][]any
 }
 
 func adminAlone(p *prep) []signerSet {
@@ -86,6 +88,8 @@ var table = map[string]spec{
 	"balance.newEpoch/1": {kind: kAlphabet, args: func(p *prep) []any { return []any{int64(3)} }}, // releases the lock prepared with until = 3
 	"balance.transfer/4": {kind: kKey, falseOnRefusal: true, key: func(p *prep) *keys.PrivateKey { return p.u0k }, args: func(p *prep) []any {
 		return []any{p.u0.ScriptHash(), p.u1.ScriptHash(), int64(5), nil}
+	}, never: func(p *prep) [][]any {
+		return [][]any{{nil, p.u1.ScriptHash(), int64(5), nil}, {p.u0.ScriptHash(), nil, int64(5), nil}, {nil, nil, int64(5), nil}}
 	}},
 	"balance.transferX/4": {kind: kAlphabet, args: func(p *prep) []any { return []any{p.u0.ScriptHash(), p.u1.ScriptHash(), int64(5), []byte{1}} }},
 	"balance.update/3":    updateSpec("balance", kMajority),
@@ -330,6 +334,20 @@ func runMethod(b *runner.Batch, n int, art, method string, arity int, s spec) {
 	sets := p.signerSets(s)
 	if s.extra != nil {
 		sets = append(sets, s.extra(p)...)
+	}
+	if s.never != nil {
+		for ai, args := range s.never(p) {
+			for _, ss := range sets {
+				r := p.w.Invoke(ss.signers, h, method, args...)
+				b.Tx(1)
+				if !(r.Rejected != "" || r.Faulted() || (r.Halted() && r.Diff.Empty() && len(r.Events) == 0 && tokenMoves(p.w, r) == 0)) {
+					b.Violation(fmt.Sprintf("%s with argument list #%d (a Null party) under signer set '%s' changed state, moved tokens or notified", key, ai, ss.label),
+						map[string]any{"method": key, "signers": ss.label, "committee": n, "tx": p.w.RenderResult(r, true)})
+				}
+				b.Eval(fmt.Sprintf("%s|never%d|%s|%s|n%d", key, ai, ss.label, r.State, n), true)
+			}
+		}
+		b.Hit("null-party-argument-lists")
 	}
 	// insufficient sets first (they must leave the prepared state untouched), sufficient ones last
 	rank := func(x signerSet) int {
